@@ -185,7 +185,24 @@ func (s *c12State) liveCells() []*c12Owner {
 
 func (s *c12State) step() (string, string) {
 	r, t := s.r, s.t
-	switch r.Intn(17) {
+	switch r.Intn(18) {
+	case 17:
+		// other things a program does to an owner between a set and a get: a cell is asked to re-read its item
+		// (the documented step after mutating an item); none of that is a property operation
+		cs := s.liveCells()
+		if len(cs) == 0 {
+			return "", ""
+		}
+		o := cs[r.Intn(len(cs))]
+		s.say("%s .Update()", o.name)
+		if o.cellCopy != nil {
+			o.cellCopy.Update()
+		} else {
+			for _, a := range o.acc() {
+				a.(*tabular.Cell).Update()
+				break
+			}
+		}
 	case 0, 1, 2, 3, 4, 5, 6:
 		o := s.owners[r.Intn(len(s.owners))]
 		if r.Chance(1, 3) {
@@ -562,7 +579,7 @@ func init() {
 	register(&Prop{
 		ID:    "C12",
 		Level: "exploration",
-		Rule: "phase 0: random histories of 10-80 steps over set / set-nil / repeated set / copy-cell-by-value / copy-column-by-value / copy-row-by-value / set properties on a cell before adding it / capture column handle / grow table (rows wider than the column bookkeeping's capacity) / extend attached row / add separator / render pass, with an 18-key universe (int(1), int64(1), uint8(1), two named ints, \"1\", float64(1), true, two distinct pointers to equal structs, a struct, an array, align.PropertyType, properties.Skipable, rune, \"a\",\"b\",\"c\"); after EVERY step all (owner, accessor, key) triples are read back and compared with the reference maps. " +
+		Rule: "phase 0: random histories of 10-80 steps over set / set-nil / repeated set / copy-cell-by-value / copy-column-by-value / copy-row-by-value / set properties on a cell before adding it / capture column handle / grow table (rows wider than the column bookkeeping's capacity) / extend attached row / add separator / render pass / Cell.Update, with an 18-key universe (int(1), int64(1), uint8(1), two named ints, \"1\", float64(1), true, two distinct pointers to equal structs, a struct, an array, align.PropertyType, properties.Skipable, rune, \"a\",\"b\",\"c\"); after EVERY step all (owner, accessor, key) triples are read back and compared with the reference maps. " +
 			"phase 1 (exhaustive over 5 owners x 1-3 keys): %#v dump after 2 rounds of sets must equal the dump after 52 rounds. phase 2 (solo, shard 0): 200k repeated sets must not raise the live heap by more than 4 MB. " +
 			"Distinct = distinct histories; non-trivial = more than 5 steps.",
 		Assumptions: []string{
